@@ -52,6 +52,9 @@ def bind_and_run(ex, fn, st, bindings):
         else:
             raise Unsupported(f"parameter {p} unbound")
     ex.loop_ordinal = 0
+    loops = [n for n in ast.walk(fn) if isinstance(n, (ast.For, ast.While))]
+    loops.sort(key=lambda n: (n.lineno, n.col_offset))
+    ex.loop_index = {id(n): k + 1 for k, n in enumerate(loops)}
     return ex.run_block(fn.body, st)
 
 
@@ -85,7 +88,16 @@ def value_eq(ex, a, b):
         tb = b if z3.is_expr(b) else (z3.BoolVal(b) if isinstance(b, bool) else z3.IntVal(b))
         return ta == tb
     if isinstance(a, ObjRef) and isinstance(b, ObjRef):
-        return z3.BoolVal(True)  # object contents are compared through the heap
+        ha, hb = getattr(ex, "_cmp_heaps", (None, None))
+        if ha is None or a.oid not in ha or b.oid not in hb:
+            return z3.BoolVal(True)  # pre-existing objects are compared through the heap
+        ra, rb = ha[a.oid], hb[b.oid]
+        if isinstance(ra, CircuitRec) and isinstance(rb, CircuitRec):
+            # a returned (new) circuit: same graph view, same registry, same name
+            return z3.And(ha[ra.graph].same(hb[rb.graph], ctx), ha[ra.bbs].same(hb[rb.bbs], ctx), value_eq(ex, ra.name, rb.name))
+        if isinstance(ra, Graph) and isinstance(rb, Graph):
+            return ra.same(rb, ctx)
+        return z3.BoolVal(True)
     if isinstance(a, TupleV) and isinstance(b, TupleV) and len(a.items) == len(b.items):
         return z3.And([value_eq(ex, x, y) for x, y in zip(a.items, b.items)])
     raise Unsupported(f"cannot compare results {a!r} / {b!r}")
@@ -153,6 +165,7 @@ def refine_vcs(ex, label, st0, body_outs, spec_outs):
                 ex.ctx.oblige(f"{label}/refines#{i}:{what}:{lab}", b.st.pc + spec_defs + conds, f, "refines")
             if kind == "return":
                 bv = b.value if b.kind == "return" else NONE
+                ex._cmp_heaps = (b.st.heap, s.st.heap)
                 ex.ctx.oblige(f"{label}/refines#{i}:{what}:result", b.st.pc + spec_defs + conds, value_eq(ex, bv, s.value), "refines")
             continue
         for s in cands:
@@ -199,10 +212,35 @@ def expand_finite(f, ctx, memo):
     return r
 
 
+def hard_check(solver, timeout_ms):
+    """solver.check() with z3's soft timeout AND a watchdog that interrupts the context (z3 does not always honour
+    the soft timeout inside quantifier instantiation)"""
+    import threading
+    solver.set(timeout=int(timeout_ms))
+    timer = threading.Timer(timeout_ms / 1000.0 * 1.3 + 2.0, lambda: z3.main_ctx().interrupt())
+    timer.daemon = True
+    timer.start()
+    try:
+        return solver.check()
+    except z3.Z3Exception:
+        return z3.unknown
+    finally:
+        timer.cancel()
+
+
 def solve(ctx, ob, timeout_ms=20000):
     t0 = time.time()
     s = z3.Solver()
     s.set(timeout=timeout_ms)
+    if ob["kind"] == "cover-sat":
+        # vacuity guard: the hypotheses must be satisfiable; decided over a finite universe of names
+        # (name templates are total injections with disjoint ranges, which no finite universe admits: checked as is;
+        #  `unsat` = the contract is vacuous; sat/unknown = not shown vacuous)
+        s.add(ctx.axioms)
+        s.add(ob["hyps"])
+        r = hard_check(s, 5000)
+        return {"id": ob["id"], "kind": ob["kind"], "time": time.time() - t0, "solver": "z3-5.1(api)",
+                "status": "vacuous" if r == z3.unsat else "discharged", "detail": f"hypotheses: {r}"}
     if ctx.finite:
         memo = {}
         for f in list(ctx.axioms) + list(ob["hyps"]) + [z3.Not(ob["goal"])]:
@@ -211,7 +249,21 @@ def solve(ctx, ob, timeout_ms=20000):
         s.add(ctx.axioms)
         s.add(ob["hyps"])
         s.add(z3.Not(ob["goal"]))
-    r = s.check()
+    r = hard_check(s, timeout_ms)
+    if r == z3.unknown and not ctx.finite and not os.environ.get("PYVC_NO_RETRY"):
+        # z3's search is sensitive to its random seed (the same VC was seen to take 2.6 s or > 10 s): retry with
+        # other seeds and a larger budget before giving up, so that verdicts do not flip under load
+        for seed, tmo in ((7, 3 * timeout_ms), (23, 6 * timeout_ms)):
+            s2 = z3.Solver()
+            s2.set(timeout=tmo)
+            s2.set("random_seed", seed)
+            s2.add(ctx.axioms)
+            s2.add(ob["hyps"])
+            s2.add(z3.Not(ob["goal"]))
+            r = hard_check(s2, tmo)
+            if r != z3.unknown:
+                s = s2
+                break
     res = {"id": ob["id"], "kind": ob["kind"], "time": 0.0, "solver": "z3-5.1(api)"}
     if r == z3.unsat:
         res["status"] = "discharged"
